@@ -31,6 +31,7 @@ type PoolConfig struct {
 	WithdrawMin     *big.Int
 	WithdrawFee     *big.Int // flat fee (nil: none)
 	WrapStore       func(store.Store) store.Store
+	Slot            int // badger instance slot (worlds that coexist need different slots)
 }
 
 // Settlement is one recorded settle call.
@@ -96,7 +97,7 @@ func NewPoolWorld(cfg PoolConfig) *PoolWorld {
 		cfg.Driver = Memory
 	}
 	w := &PoolWorld{Cfg: cfg, Hosts: map[string]*FakeHost{}}
-	w.Raw = NewStore(cfg.Driver)
+	w.Raw = NewStoreSlot(cfg.Driver, cfg.Slot)
 	w.Store = w.Raw
 	if cfg.WrapStore != nil {
 		w.Store = cfg.WrapStore(w.Raw)
